@@ -274,6 +274,10 @@ def known_findings():
 
 # ------------------------------------------------------------------ check context
 
+class StopCheck(BaseException):
+    """raised after a violation has been recorded that makes going on pointless (the library no longer returns)"""
+
+
 class Check(object):
     """One run of one property's check."""
 
